@@ -26,6 +26,8 @@ pub enum RTamper {
     FlipBit(u16),
     /// another valid point: boundary point #i of G1 (sm9util::g1_edge_points), in affine form
     EdgePoint(usize),
+    /// (R_B only) the valid point [s]Q_A for the given s, s = v mod (N-2) + 1: what an honest responder that drew s would have sent
+    ScalarPoint(Hex),
 }
 
 #[derive(Serialize, Deserialize, Hash, Debug, Clone)]
@@ -64,6 +66,7 @@ fn tamper(honest: &Pt<Fp>, lib_honest: &Point, t: &Option<RTamper>) -> (Option<P
             let alt = &q != honest;
             (Some(q.clone()), lib_g1(&q, &BigUint::one()), alt)
         }
+        Some(RTamper::ScalarPoint(_)) => (Some(honest.clone()), *lib_honest, false), // resolved by the caller, which knows Q_A
         Some(RTamper::Negated) => {
             let q = pr.g1.neg(honest);
             (Some(q.clone()), lib_g1(&q, &BigUint::one()), true)
@@ -143,10 +146,18 @@ fn check(c: &Xc) -> CaseResult {
     ensure!(skb.len() == c.klen, "entry=exch_step_1b outcome=wrong-key-length", "klen={} got {}", c.klen, skb.len());
     ensure!(skb == skb_ref, "entry=exch_step_1b outcome=wrong-key", "ke={:x} |IDA|={} |IDB|={} klen={}: library SK_B {} ; GM/T 0044.3 {}", ke, ida.len(), idb.len(), c.klen, hexs::hx(&skb), hexs::hx(&skb_ref));
     // in transit to A
-    let (rb_seen_ref, rb_seen_lib, rb_altered) = tamper(&rb_ref, &rb_lib, &c.t_rb);
+    let (rb_seen_ref, rb_seen_lib, rb_altered) = match &c.t_rb {
+        Some(RTamper::ScalarPoint(h)) => {
+            let q = r9::exch_r(&m.ppube, &ida, &(from_be(h) % (n - 2u32) + 1u32));
+            let alt = q != rb_ref;
+            (Some(q.clone()), lib_g1(&q, &BigUint::one()), alt)
+        }
+        t => tamper(&rb_ref, &rb_lib, t),
+    };
     // A5-A8
     let r2a = outcome(|| exch_step_2a(&libm, &ida, &idb, &key_a, ra_scalar, &ra_lib, &rb_seen_lib, c.klen));
     let ska = match (&r2a, &rb_seen_ref) {
+        (Outcome::Panic(p), _) if p.contains("loop iteration budget exhausted") => return fail("entry=exch_step_2a input=on-curve-R_B outcome=never-terminates", format!("klen={} rA={:x}: the loop in exch_step_2a repeats the same computation for ever ({})", c.klen, ra_used, p)),
         (Outcome::Panic(p), _) => return fail(format!("entry=exch_step_2a input={} outcome=panic", if rb_seen_ref.is_some() { "on-curve-R_B" } else { "off-curve-R_B" }), p.clone()),
         (Outcome::Err(_), None) => return pass(true, "offcurve-R_B-rejected"),
         (Outcome::Err(e), Some(_)) => return fail("entry=exch_step_2a input=on-curve-R_B outcome=err", e.clone()),
@@ -236,6 +247,39 @@ pub fn run(ctx: &Ctx) {
         for i in 0..nrel {
             for rel in 1..=5u8 {
                 v.push(Xc { ke: gen::hex32(&BigUint::one()), ke_rel: rel | ((i % 5) as u8) << 4, ida_len: 1 + (i as usize % 9), idb_len: 1 + (i as usize * 3 % 11), id_seed: 0x1717 + i, same_id: false, klen: 16 + (i as usize % 20), ra: Hex(expand_bytes(i ^ 0xa1, 32)), rb: Hex(expand_bytes(i ^ 0xb1, 32)), t_ra: None, t_rb: None });
+            }
+        }
+        v
+    }, check);
+
+    ctx.listed("crafted_zero_key", "klen = 1 and an rB (found by walking rB upwards with the reference) for which the one-byte key KDF(...) is 00 — this happens once in 256 exchanges at klen = 1: (a) the responder is offered the candidates (rB_bad, rB_good): whichever it ends up using, R_B and SK_B must belong together; (b) the initiator receives the R_B of a responder that used rB_bad: it must return the (all-zero) key GM/T 0044.3 defines, not loop", || {
+        use rayon::prelude::*;
+        let n = &r9::params().n;
+        let mut v = Vec::new();
+        for j in 0..2u64 {
+            let base = Xc { ke: gen::hex32(&BigUint::from(0x0bad_c0de_1234_5677u64 - 1)), ke_rel: ((j % 5) as u8) << 4, ida_len: 4 + j as usize, idb_len: 3, id_seed: 0x2e17 + j, same_id: false, klen: 1, ra: Hex(expand_bytes(j ^ 0x2e18, 32)), rb: Hex(vec![0; 32]), t_ra: None, t_rb: None };
+            let ke = from_be(&base.ke) % (n - 1u32) + 1u32;
+            let m = master(&ke);
+            let ida = expand_bytes(base.id_seed, base.ida_len);
+            let idb = expand_bytes(base.id_seed ^ 0xb0b, base.idb_len);
+            let Some(deb) = r9::exch_key(&ke, &idb) else { continue };
+            let ra = from_be(&base.ra) % (n - 2u32) + 1u32;
+            let ra_pt = r9::exch_r(&m.ppube, &idb, &ra);
+            let start = from_be(&expand_bytes(j ^ 0x2e19, 24));
+            let hit = (0..4096u64).into_par_iter().find_first(|i| {
+                let rb = &start + *i;
+                let rb_pt = r9::exch_r(&m.ppube, &ida, &rb);
+                r9::exch_responder(&m.g, &deb, &ida, &idb, &rb, &ra_pt, &rb_pt, 1) == Some(vec![0u8])
+            });
+            if let Some(i) = hit {
+                let enc = gen::hex32(&(&start + i - 1u32)); // stored value v with rB = v mod (N-2) + 1
+                let mut a = base.clone();
+                a.rb = enc.clone();
+                v.push(a);
+                let mut b = base.clone();
+                b.rb = Hex(expand_bytes(j ^ 0x2e1a, 32));
+                b.t_rb = Some(RTamper::ScalarPoint(enc));
+                v.push(b);
             }
         }
         v
